@@ -3,6 +3,7 @@ package c11
 import (
 	"fmt"
 	"sync"
+	"sync/atomic"
 	"testing"
 	"time"
 
@@ -497,5 +498,61 @@ func TestSubscribeThenClose(t *testing.T) {
 				}
 			}
 		}
+	}
+}
+
+// Part "one-shot-handler": the handler of an evaluation is closed at the very moment it has taken the work -
+// by the effect itself (a handler used for one evaluation and closed from inside it) or by the OnNext it
+// delivers to. The effect and OnNext still run exactly once each ("still exactly once each").
+func TestOneShotHandler(t *testing.T) {
+	if vlib.Replaying() {
+		t.Skip()
+	}
+	rounds := vlib.Pick(300, 3000)
+	for _, where := range []string{"effect closes its ObserveOn handler", "OnNext closes its SubscribeOn handler", "effect closes the handler that is both"} {
+		for r := 0; r < rounds; r++ {
+			vlib.S().Eval("one-shot-handler")
+			h := fpgo.Handler.New()
+			var effects, nexts int32
+			m := fpgo.MonadIONewGenerics(func() int {
+				atomic.AddInt32(&effects, 1)
+				if where[0] == 'e' {
+					h.Close()
+				}
+				return 1
+			})
+			switch where[0] {
+			case 'e':
+				m.ObserveOn(h)
+				if where[len(where)-1] == 'h' { // "...that is both"
+					m.SubscribeOn(nil)
+				}
+			default:
+				m.SubscribeOn(h)
+			}
+			done := make(chan struct{})
+			go func() {
+				defer close(done)
+				m.Subscribe(fpgo.Subscription[int]{OnNext: func(int) {
+					atomic.AddInt32(&nexts, 1)
+					if where[0] == 'O' {
+						h.Close()
+					}
+				}})
+			}()
+			select {
+			case <-done:
+			case <-time.After(vlib.StallBudget()):
+				vlib.Fail(t, "C11/one-shot-handler/stall", "%s: Subscribe does not return", where)
+				return
+			}
+			vlib.WaitUntil(20*time.Millisecond, func() bool { return atomic.LoadInt32(&nexts) >= 1 })
+			time.Sleep(50 * time.Microsecond)
+			if e, n := atomic.LoadInt32(&effects), atomic.LoadInt32(&nexts); e != 1 || n != 1 {
+				vlib.Fail(t, "C11/one-shot-handler/count", "%s (round %d): the effect ran %d times, OnNext %d times, want once each", where, r, e, n)
+				return
+			}
+		}
+		vlib.S().NonTrivial("one-shot-handler", where)
 	}
 }
